@@ -58,19 +58,27 @@ def scanEntries (unk : List (Nat × WordParam)) (endChar : Nat) : List Cand :=
     { endWord := endChar, wordId := id, lexType := 2,
       leftId := p.leftId, rightId := p.rightId, wordCost := p.wordCost }
 
+/-- `groupable - 1 <= max_grouping_len` (`None` = infinity). -/
+def unkFits (maxGroup : Option Nat) (groupable : Nat) : Bool :=
+  match maxGroup with
+  | none => true
+  | some m => decide (groupable - 1 ≤ m)
+
+/-- The lengths visited by the `for i in 1..=min(length, groupable)` loop that are not
+skipped by `if grouped && i == groupable { continue }`. -/
+def unkPre (ci : CharInfo) (groupable : Nat) : List Nat :=
+  (List.range' 1 (min ci.length groupable)).filter (fun i => !(ci.group && i == groupable))
+
 /-- `gen_unk_words` as coded. `maxGroup = none` is "infinity". -/
 def genUnk (ci : CharInfo) (groupable len start : Nat) (hasMatched : Bool)
     (maxGroup : Option Nat) (unk : List (Nat × WordParam)) : List Cand :=
   if hasMatched && !ci.invoke then []
   else
-    let fits : Bool := match maxGroup with
-      | none => true
-      | some m => groupable - 1 ≤ m
+    let fits := unkFits maxGroup groupable
     let grp : List Cand :=
       if ci.group && fits then scanEntries unk (start + groupable) else []
     let hm1 : Bool := hasMatched || (ci.group && fits)
-    let lens := ((List.range' 1 (min ci.length groupable)).filter
-      (fun i => !(ci.group && i == groupable))).takeWhile (fun i => start + i ≤ len)
+    let lens := (unkPre ci groupable).takeWhile (fun i => start + i ≤ len)
     let pre : List Cand := lens.flatMap fun i => scanEntries unk (start + i)
     let hm2 : Bool := hm1 || !lens.isEmpty
     let fb : List Cand := if hm2 then [] else scanEntries unk (start + 1)
